@@ -13,7 +13,11 @@ func header(suite Suite, _ kyber.Point, x kyber.Scalar,
 
 	// Encrypt the master scalar key with each public key in the set
 	S := suite.Point()
-	hdr := xb1
+	// build the header in a buffer of its own: during decryption xb1 is a
+	// prefix of the ciphertext, and appending to it would overwrite the very
+	// bytes the regenerated header is compared with
+	hdr := make([]byte, 0, len(xb1)+len(anonymitySet)*len(xb2))
+	hdr = append(hdr, xb1...)
 	for i := range anonymitySet {
 		Y := anonymitySet[i]
 		S.Mul(x, Y) // compute DH shared secret
